@@ -588,6 +588,13 @@ func prepareSnapshotForStore(store *KVStore, machineConfig MachineConfig,
 	srcPath := path.Join(rockredis.GetBackupDir(syncDir),
 		rockredis.GetCheckpointDir(raftSnapshot.Metadata.Term, raftSnapshot.Metadata.Index))
 
+	// until the transfer has finished the directory must not be taken for a backup (a crash may
+	// leave any part of it behind)
+	err := rockredis.MarkCheckpointIncomplete(path.Join(localPath,
+		rockredis.GetCheckpointDir(raftSnapshot.Metadata.Term, raftSnapshot.Metadata.Index)))
+	if err != nil {
+		return err
+	}
 	// since most backup on local is not transferred by others,
 	// if we need reuse we need check all backups that has source node info,
 	// and skip the latest snap file in snap dir.
@@ -598,11 +605,14 @@ func prepareSnapshotForStore(store *KVStore, machineConfig MachineConfig,
 	// copy backup data from the remote leader node, and recovery backup from it
 	// if local has some old backup data, we should use rsync to sync the data file
 	// use the rocksdb backup/checkpoint interface to backup data
-	err := common.RunFileSync(syncAddr,
+	err = common.RunFileSync(syncAddr,
 		srcPath,
 		localPath, stopChan)
 
 	postFileSync(newPath, srcInfo)
+	if err == nil {
+		rockredis.MarkCheckpointComplete(newPath)
+	}
 	return err
 }
 
@@ -971,16 +981,19 @@ func (kvsm *kvStoreSM) handleCustomRequest(fromClusterSyncer bool, req *Internal
 			srcPath := path.Join(rockredis.GetBackupDir(p.SyncPath),
 				rockredis.GetCheckpointDir(p.RemoteTerm, p.RemoteIndex))
 
+			err = rockredis.MarkCheckpointIncomplete(path.Join(localPath,
+				rockredis.GetCheckpointDir(p.RemoteTerm, p.RemoteIndex)))
 			_, newPath := handleReuseOldCheckpoint(srcInfo, localPath, p.RemoteTerm, p.RemoteIndex, 0)
 
-			if common.IsConfSetted(common.ConfIgnoreRemoteFileSync) {
-				err = nil
-			} else {
+			if err == nil && !common.IsConfSetted(common.ConfIgnoreRemoteFileSync) {
 				err = common.RunFileSync(p.SyncAddr,
 					srcPath,
 					localPath, stop,
 				)
 				postFileSync(newPath, srcInfo)
+			}
+			if err == nil {
+				rockredis.MarkCheckpointComplete(newPath)
 			}
 			if err != nil {
 				kvsm.Infof("transfer remote snap request: %v to local: %v failed: %v", p, localPath, err)
